@@ -5,3 +5,4 @@ import NetqasmVerif.Model.Gates
 import NetqasmVerif.Model.NvDecomp
 import NetqasmVerif.Model.Pauli
 import NetqasmVerif.Model.Toolbox
+import NetqasmVerif.Props.C10
